@@ -221,3 +221,23 @@ impl TokCapLate {
 impl FungibleToken for TokCapLate {
     type ContractType = Base;
 }
+
+// ---------------- vault whose configuration entry points stay reachable ----------------
+#[contract]
+pub struct VaultLate;
+
+#[contractimpl]
+impl VaultLate {
+    pub fn set_asset(e: &Env, asset: Address) {
+        stellar_tokens::vault::Vault::set_asset(e, asset)
+    }
+    pub fn set_offset(e: &Env, offset: u32) {
+        stellar_tokens::vault::Vault::set_decimals_offset(e, offset)
+    }
+    pub fn offset(e: &Env) -> u32 {
+        stellar_tokens::vault::Vault::get_decimals_offset(e)
+    }
+    pub fn asset(e: &Env) -> Address {
+        stellar_tokens::vault::Vault::query_asset(e)
+    }
+}
